@@ -415,17 +415,19 @@ func (dht *FullRT) runCrawler(ctx context.Context) {
 			newRt.Add(kadKey)
 		}
 
+		// Swap the three parts of the crawl result under all three locks at once,
+		// taken in the order readers take them. Swapping them one after the other
+		// lets a GetClosestPeers call see the previous trie with the new maps: its
+		// keys are then missing from the map and near peers are silently omitted.
+		dht.rtLk.Lock()
+		dht.kMapLk.Lock()
 		dht.peerAddrsLk.Lock()
 		dht.peerAddrs = peerAddrs
-		dht.peerAddrsLk.Unlock()
-
-		dht.kMapLk.Lock()
 		dht.keyToPeerMap = kPeerMap
-		dht.kMapLk.Unlock()
-
-		dht.rtLk.Lock()
 		dht.rt = newRt
 		dht.lastCrawlTime = time.Now()
+		dht.peerAddrsLk.Unlock()
+		dht.kMapLk.Unlock()
 		dht.rtLk.Unlock()
 	}
 }
